@@ -42,8 +42,8 @@ Definition law16_step (gs : list graph) (root : oid) (active : bool) (hb : heap)
       match op_slot m with
       | None => chk 5 (is_nil (o_ocalls ob) && is_nil (o_lcalls ob))
       | Some (x, f) =>
-          let reach := existsb (fun g => matched hb g root x f) gs in
-          let c := classify hb ha m in
+          let reach := existsb (fun g => matched init_traits hb g root x f) gs in
+          let c := classify init_traits hb ha m in
           if negb active then chk 5 (is_nil (o_ocalls ob) && is_nil (o_lcalls ob))
           else match m, c with
                | Probe _, _ =>
